@@ -5,6 +5,7 @@ from ..common import rng
 from ..drivers import behaviours
 from ..drivers import programs, targeted
 from ._twin import replay_programs, run_programs
+from ._util import replay_calls, run_calls
 
 
 def check(run, tier):
@@ -22,6 +23,16 @@ def check(run, tier):
     if not q:
         run.mc("MC_Twin", "MC_Twin_mixed_d4", timeout=3000)
     r = rng("C05")
+    # the mixing primitive itself: all small volume pairs x a pool of compositions (incl. unknown and shared names)
+    pool = [None, {"x": (1, 1)}, {"y": (1, 1)}, {"x": (1, 2), "y": (1, 2)}, {"x": (1, 4), "z": (3, 4)}, {"w": (2, 3), "x": (1, 3)}, {}]
+    ps = []
+    for va in range(0, 7 if q else 13):
+        for vb in range(0, 7 if q else 13):
+            for a in pool:
+                for b in pool:
+                    if (va + vb + len(ps)) % (3 if q else 1) == 0:
+                        ps.append({"x": "combine", "va": va, "vb": vb, "a": a, "b": b})
+    run_calls(run, ps, batch=3000, nontrivial=lambda rec: rec["aknown"] and rec["bknown"] and rec["va"] > 0 and rec["vb"] > 0)
     progs = targeted.worklist_programs("evo") + targeted.naming_programs()
     n = 200 if q else 4000
     for i in range(n):
@@ -51,4 +62,6 @@ def check(run, tier):
 
 
 def replay(run, rp):
-    replay_programs(run, rp)
+    from ._twin import replay_any
+
+    replay_any(run, rp)
